@@ -11,3 +11,5 @@ pub mod refmodels;
 mod c09_jenkins;
 #[cfg(kani)]
 mod c09_salsa_arc4;
+#[cfg(kani)]
+mod c09_md5;
